@@ -622,6 +622,22 @@ type CLICrashCase struct {
 	F1    string   `json:"f1"`    // content of file f1
 	F2    *string  `json:"f2"`    // content of file f2 (nil: not given)
 	Stdin *string  `json:"stdin"` // content of stdin (nil: empty)
+	// DeepPath > 0: f1 is a native diff with one merge hunk whose path has
+	// that many keys (written out here, not stored in the case).
+	DeepPath int `json:"deep_path,omitempty"`
+}
+
+func deepPathDiff(n int) string {
+	var b strings.Builder
+	b.WriteString("^ {\"Merge\":true}\n@ [")
+	for i := 0; i < n; i++ {
+		if i > 0 {
+			b.WriteByte(',')
+		}
+		b.WriteString(`"a"`)
+	}
+	b.WriteString("]\n+ 1\n")
+	return b.String()
 }
 
 func checkC13CLI(c CLICrashCase, r *rec.Rec) error {
@@ -630,6 +646,10 @@ func checkC13CLI(c CLICrashCase, r *rec.Rec) error {
 	}
 	dir, cleanup := caseDir()
 	defer cleanup()
+	viol := rec.Violated
+	if c.DeepPath > 0 {
+		c.F1 = deepPathDiff(c.DeepPath)
+	}
 	writeFile(dir, "f1", c.F1)
 	if c.F2 != nil {
 		writeFile(dir, "f2", *c.F2)
@@ -638,9 +658,17 @@ func checkC13CLI(c CLICrashCase, r *rec.Rec) error {
 	if err := cliTrouble(res); err != nil {
 		return err
 	}
-	desc := fmt.Sprintf("%s %s (f1=%q f2=%v stdin=%v)", c.Bin, strings.Join(c.Args, " "), c.F1, strPtr(c.F2), strPtr(c.Stdin))
-	if strings.Contains(res.Stderr, "panic:") || strings.Contains(res.Stderr, "goroutine ") || strings.Contains(res.Stderr, "runtime error") {
-		return rec.Violated("%s crashes with a Go stack trace (status %d):\n%s", desc, res.Status, firstLines(res.Stderr, 12))
+	f1Shown := fmt.Sprintf("%q", c.F1)
+	if c.DeepPath > 0 {
+		f1Shown = fmt.Sprintf("<one merge hunk, path of %d keys>", c.DeepPath)
+		if c.DeepPath >= 500000 && strings.Contains(res.Stderr, "stack overflow") {
+			// D40: the merge patch of a non-object recurses once per path element
+			viol = func(f string, a ...interface{}) error { return rec.Known("D40", f, a...) }
+		}
+	}
+	desc := fmt.Sprintf("%s %s (f1=%s f2=%v stdin=%v)", c.Bin, strings.Join(c.Args, " "), f1Shown, strPtr(c.F2), strPtr(c.Stdin))
+	if strings.Contains(res.Stderr, "panic:") || strings.Contains(res.Stderr, "goroutine ") || strings.Contains(res.Stderr, "runtime error") || strings.Contains(res.Stderr, "fatal error") {
+		return viol("%s crashes with a Go stack trace (status %d):\n%s", desc, res.Status, firstLines(res.Stderr, 12))
 	}
 	if res.Status != 0 && res.Status != 1 && res.Status != 2 {
 		return rec.Violated("%s exits with status %d\nstderr:\n%s", desc, res.Status, firstLines(res.Stderr, 12))
@@ -714,6 +742,14 @@ func genC13CLI(t *rapid.T) CLICrashCase {
 	if gen.Chance(t, "outFlag", 25) {
 		// an output file that can or cannot be written
 		flags = append(flags, "-o="+gen.Pick(t, "outPath", []string{"out.txt", "no/such/dir/out.txt", ".", "f1/out.txt", ""}))
+	}
+	if gen.Chance(t, "deepPath", 1) {
+		// a merge hunk whose path has tens of thousands of keys
+		doc := gen.Pick(t, "deepTarget", []string{`{}`, `{"a":{"a":1}}`, `[1]`, `"s"`})
+		c.DeepPath = gen.Pick(t, "deepLen", []int{800, 3000, 8000})
+		c.F2 = &doc
+		c.Args = append(flags, "-p", "f1", "f2")
+		return c
 	}
 	if gen.Chance(t, "emptyResult", 8) {
 		if gen.Chance(t, "emptyResultToFile", 50) {
